@@ -6,7 +6,7 @@ impl<T: RealNumber, V: BaseVector<T>> SupportVector<T, V> {
             r.index == i, r.x == x, r.grad == g,
             val(r.alpha) == 0real, //# new-support-vector-has-zero-coefficient
             box_of_class(r, y, c), //# new-support-vector-box-follows-class
-            val(c) >= 0real ==> in_box(r),
+            val(c) >= 0real ==> in_box(r), //# new-support-vector-inside-its-box
 //@enter
         proof { T::ops_total(); axiom_real::<T>(); }
 //@end
